@@ -447,14 +447,16 @@ func getInitLocation(dim int, initX []float64, initValues *Location) (Operation,
 		if len(initValues.Gradient) != dim {
 			panic("optimize: initial gradient does not match problem dimension")
 		}
-		loc.Gradient = initValues.Gradient
+		loc.Gradient = make([]float64, dim)
+		copy(loc.Gradient, initValues.Gradient)
 		op |= GradEvaluation
 	}
 	if initValues.Hessian != nil {
 		if initValues.Hessian.SymmetricDim() != dim {
 			panic("optimize: initial Hessian does not match problem dimension")
 		}
-		loc.Hessian = initValues.Hessian
+		loc.Hessian = mat.NewSymDense(dim, nil)
+		loc.Hessian.CopySym(initValues.Hessian)
 		op |= HessEvaluation
 	}
 	return op, loc
